@@ -8,6 +8,7 @@ import (
 	"os"
 	"os/exec"
 	"path/filepath"
+	"regexp"
 	"sort"
 	"strconv"
 	"strings"
@@ -71,6 +72,8 @@ func runChild(cfg *supConfig, spec WorkerSpec, gomaxprocs int) childOutcome {
 		}()
 	}
 	var tail bytes.Buffer
+	var last []string
+	lastBytes := 0
 	pr, pw, _ := os.Pipe()
 	cmd.Stderr = pw
 	cmd.Stdout = pw
@@ -91,14 +94,30 @@ func runChild(cfg *supConfig, spec WorkerSpec, gomaxprocs int) childOutcome {
 				continue
 			}
 		}
-		if tail.Len() < 1<<16 {
+		// keep the head and the tail of the output (a crash header may come after a lot of noise, a
+		// goroutine dump after it may be long)
+		if tail.Len() < 1<<15 {
 			tail.WriteString(line)
 			tail.WriteByte('\n')
+		} else {
+			last = append(last, line)
+			lastBytes += len(line) + 1
+			for lastBytes > 1<<17 && len(last) > 1 {
+				lastBytes -= len(last[0]) + 1
+				last = last[1:]
+			}
 		}
 	}
 	err := cmd.Wait()
 	pr.Close()
+	if len(last) > 0 {
+		tail.WriteString("[...]\n" + strings.Join(last, "\n") + "\n")
+	}
 	co.stderr = tail.String()
+	if err != nil && cfg != nil && cfg.WorkDir != "" {
+		// the complete captured output of a failed worker, for diagnosis
+		os.WriteFile(filepath.Join(filepath.Dir(cfg.WorkDir), fmt.Sprintf("failed-worker-%s-%d.log", spec.Prop, spec.From)), []byte(co.stderr), 0o644)
+	}
 	if err != nil {
 		co.exit = 1
 		if ee, ok := err.(*exec.ExitError); ok {
@@ -122,7 +141,7 @@ func runChild(cfg *supConfig, spec WorkerSpec, gomaxprocs int) childOutcome {
 			co.exit = 2
 		}
 	} else if !co.watchdog {
-		co.crashed = strings.Contains(co.stderr, "panic:") || strings.Contains(co.stderr, "fatal error:") || co.exit < 0 || strings.Contains(co.stderr, "signal")
+		co.crashed = strings.Contains(co.stderr, "panic:") || strings.Contains(co.stderr, "fatal error:") || co.exit < 0 || strings.Contains(co.stderr, "signal") || strings.Contains(co.stderr, "SIG")
 	}
 	os.Remove(spec.Out)
 	return co
@@ -213,6 +232,28 @@ func crashFacts(sc *sim.Scenario, stderr string) (map[string]string, string) {
 
 // triageCrash confirms a worker death on scenario index idx in a sacrificial child, minimises it
 // with further children and returns the violation.
+// toolchainTimerCrash recognises a crash of the Go 1.26.8 runtime itself, not of the code under
+// test: with the race detector on, every timer of a synctest bubble fires under the bubble's single
+// race context (runtime/time.go unlockAndRun: gp.racectx = bubble.timers.raceCtx); when two threads
+// fire channel timers of one bubble at the same moment (select on a time.Timer channel, GOMAXPROCS >
+// 1) they share that context and the race runtime dies with SIGSEGV. The signature is a SIGSEGV whose
+// g0 is labelled with a synctest bubble (g0 carries a bubble only while it fires one of the bubble's
+// timers). It cannot happen on one P.
+func toolchainTimerCrash(stderr string) bool {
+	i := strings.Index(stderr, "SIGSEGV: segmentation violation")
+	if i < 0 {
+		return false
+	}
+	head := stderr[i:]
+	if len(head) > 6000 {
+		head = head[:6000]
+	}
+	// g0 carries a bubble only while it fires one of the bubble's timers on the system stack
+	return toolchainG0InBubble.MatchString(head)
+}
+
+var toolchainG0InBubble = regexp.MustCompile(`(?m)^goroutine 0 gp=\S+ m=\d+ mp=\S+ \[[^\]]*synctest bubble`)
+
 func triageCrash(cfg *supConfig, p props.Property, idx int, firstStderr string) *FoundViolation {
 	sc := GenScenario(p, cfg.Tier, cfg.Seed, idx)
 	tmp := filepath.Join(cfg.WorkDir, fmt.Sprintf("crash-%d.json", idx))
@@ -382,16 +423,28 @@ func supervisorMain() int {
 				if !ok {
 					return
 				}
+				single := false
 				for from < to {
 					spec := WorkerSpec{Prop: cfg.Prop, Tier: cfg.Tier, Seed: cfg.Seed, From: from, To: to, Out: filepath.Join(cfg.WorkDir, fmt.Sprintf("w%d-%d.json", wkr, from)), ReplayDir: cfg.ReplayDir}
 					gmp := 1
-					if cfg.Prop == "C14" {
+					if cfg.Prop == "C14" && !single {
 						gmp = []int{1, 4, 16}[(from/max(chunk, 1))%3]
 					}
 					co := runChild(cfg, spec, gmp)
 					if co.res != nil {
 						agg.merge(co.res)
 						break
+					}
+					if gmp > 1 && toolchainTimerCrash(co.stderr) {
+						// not the code under test: see toolchainTimerCrash. The rest of the chunk runs on one P.
+						agg.mu.Lock()
+						agg.Stats["toolchain.race-synctest-timer-crash.retried-single-P"]++
+						agg.mu.Unlock()
+						single = true
+						if co.lastIdx > from {
+							from = co.lastIdx
+						}
+						continue
 					}
 					if co.watchdog || !co.crashed || co.lastIdx < 0 {
 						agg.mu.Lock()
